@@ -314,7 +314,8 @@ impl Run {
             let pi = self.sys.peer_index(*peer);
             let (connected, archival) = pi.map(|i| (self.sys.peers[i].conn.is_some(), self.sys.peers[i].archival && self.sys.peers[i].conn.is_some())).unwrap_or((false, false));
             let attempt = self.reqs[req].sends.len() + 1;
-            self.trace.push(format!("send r{req} try{attempt} connected={connected}{}", if attempt >= 3 { format!(" archival={archival}") } else { String::new() }));
+            // which peer was picked is random (shuffle): it never enters the observation key
+            self.trace.push(format!("send r{req} try{attempt}"));
             if !connected {
                 push_viol(&mut self.viol, "sent-to-disconnected-peer", format!("attempt {attempt} of r{req} (send #{id}) went to peer {pi:?}, which is not connected"));
             }
@@ -551,6 +552,12 @@ fn main() {
             }
             let cfg = DevConfig { bound, wall_cap: left, max_execs: u64::MAX, max_deviation_pos: 0 };
             let mut r = Report::new();
+            if rep.violation_count > 0 {
+                // smallest violating population first; larger ones add nothing (and a broken
+                // handler may pick the offending peer at random there)
+                rep.cap_hit(&format!("stopped after the first violating population, before {}", pop_json(pop)));
+                continue;
+            }
             if let Err(m) = explore_deviations(&cfg, |p, keep| run(pop, horizon, p, keep), &mut r) {
                 machinery_error(&ctx.id, &m);
             }
